@@ -12,7 +12,9 @@ import (
 
 func LoadInt32(p *int32) int32 {
 	vsched.AtomicPoint(unsafe.Pointer(p), false)
-	return atomic.LoadInt32(p)
+	v := atomic.LoadInt32(p)
+	vsched.AfterAtomic(unsafe.Pointer(p))
+	return v
 }
 func StoreInt32(p *int32, v int32) {
 	vsched.AtomicPoint(unsafe.Pointer(p), true)
@@ -28,11 +30,15 @@ func SwapInt32(p *int32, v int32) int32 {
 }
 func CompareAndSwapInt32(p *int32, o, n int32) bool {
 	vsched.AtomicPoint(unsafe.Pointer(p), true)
-	return atomic.CompareAndSwapInt32(p, o, n)
+	v := atomic.CompareAndSwapInt32(p, o, n)
+	vsched.AfterAtomic(unsafe.Pointer(p))
+	return v
 }
 func LoadInt64(p *int64) int64 {
 	vsched.AtomicPoint(unsafe.Pointer(p), false)
-	return atomic.LoadInt64(p)
+	v := atomic.LoadInt64(p)
+	vsched.AfterAtomic(unsafe.Pointer(p))
+	return v
 }
 func StoreInt64(p *int64, v int64) {
 	vsched.AtomicPoint(unsafe.Pointer(p), true)
@@ -48,11 +54,15 @@ func SwapInt64(p *int64, v int64) int64 {
 }
 func CompareAndSwapInt64(p *int64, o, n int64) bool {
 	vsched.AtomicPoint(unsafe.Pointer(p), true)
-	return atomic.CompareAndSwapInt64(p, o, n)
+	v := atomic.CompareAndSwapInt64(p, o, n)
+	vsched.AfterAtomic(unsafe.Pointer(p))
+	return v
 }
 func LoadUint32(p *uint32) uint32 {
 	vsched.AtomicPoint(unsafe.Pointer(p), false)
-	return atomic.LoadUint32(p)
+	v := atomic.LoadUint32(p)
+	vsched.AfterAtomic(unsafe.Pointer(p))
+	return v
 }
 func StoreUint32(p *uint32, v uint32) {
 	vsched.AtomicPoint(unsafe.Pointer(p), true)
@@ -64,11 +74,15 @@ func AddUint32(p *uint32, d uint32) uint32 {
 }
 func CompareAndSwapUint32(p *uint32, o, n uint32) bool {
 	vsched.AtomicPoint(unsafe.Pointer(p), true)
-	return atomic.CompareAndSwapUint32(p, o, n)
+	v := atomic.CompareAndSwapUint32(p, o, n)
+	vsched.AfterAtomic(unsafe.Pointer(p))
+	return v
 }
 func LoadUint64(p *uint64) uint64 {
 	vsched.AtomicPoint(unsafe.Pointer(p), false)
-	return atomic.LoadUint64(p)
+	v := atomic.LoadUint64(p)
+	vsched.AfterAtomic(unsafe.Pointer(p))
+	return v
 }
 func StoreUint64(p *uint64, v uint64) {
 	vsched.AtomicPoint(unsafe.Pointer(p), true)
@@ -80,7 +94,9 @@ func AddUint64(p *uint64, d uint64) uint64 {
 }
 func CompareAndSwapUint64(p *uint64, o, n uint64) bool {
 	vsched.AtomicPoint(unsafe.Pointer(p), true)
-	return atomic.CompareAndSwapUint64(p, o, n)
+	v := atomic.CompareAndSwapUint64(p, o, n)
+	vsched.AfterAtomic(unsafe.Pointer(p))
+	return v
 }
 
 // Value, Bool, Int32, Int64, Pointer: typed atomics (not used by go-res today; thin wrappers so that a
